@@ -709,20 +709,71 @@ func (f *frame) zeroInitArr(st *State, arr string, et types.Type, n string, cons
 	f.c.assume(st, fmt.Sprintf("(forall ((i Int)) (! (= (select %s (elem %s i)) %s) :pattern ((select %s (elem %s i)))))", st.Heap(h), arr, g.TE.Zero(et), st.Heap(h), arr))
 }
 
-// havocHeaps replaces the listed heaps by fresh constants.
+// wfHeapAxiom: every reference, slice and interface stored in heap term h (of the given
+// array sort) denotes allocated memory (ids below next). This is an invariant of every
+// reachable Go state in the allocation-counter model.
+func wfHeapAxiom(h, fullSort, next string) string {
+	wf := func(sort, term string) string {
+		switch sort {
+		case SRef:
+			return fmt.Sprintf("(alloc %s %s)", term, next)
+		case SSlice:
+			return fmt.Sprintf("(slice_ok %s %s)", term, next)
+		case SIface:
+			return fmt.Sprintf("(iface_ok %s %s)", term, next)
+		}
+		return ""
+	}
+	if !strings.HasPrefix(fullSort, "(Array Ref ") {
+		return ""
+	}
+	inner := strings.TrimSuffix(strings.TrimPrefix(fullSort, "(Array Ref "), ")")
+	if !strings.HasPrefix(inner, "(") {
+		w := wf(inner, fmt.Sprintf("(select %s r)", h))
+		if w == "" {
+			return ""
+		}
+		return fmt.Sprintf("(assert (forall ((r Ref)) (! %s :pattern ((select %s r)))))", w, h)
+	}
+	// map value heap: (Array K V)
+	if strings.HasPrefix(inner, "(Array ") {
+		kv := strings.Fields(strings.TrimSuffix(strings.TrimPrefix(inner, "(Array "), ")"))
+		if len(kv) == 2 {
+			w := wf(kv[1], fmt.Sprintf("(select (select %s r) k)", h))
+			if w == "" {
+				return ""
+			}
+			return fmt.Sprintf("(assert (forall ((r Ref) (k %s)) (! %s :pattern ((select (select %s r) k)))))", kv[0], w, h)
+		}
+	}
+	return ""
+}
+
+// havocHeaps replaces the listed heaps by fresh constants (well-formed w.r.t. a new allocation counter).
 func (f *frame) havocHeaps(st *State, names []string) {
+	if len(names) == 0 {
+		return
+	}
+	f.havocNext(st)
 	for _, h := range names {
 		if _, ok := f.c.g.TE.heapSort[h]; !ok {
 			continue
 		}
-		st.heaps[h] = f.c.declare(h, f.c.g.TE.heapSort[h])
+		n := f.c.declare(h, f.c.g.TE.heapSort[h])
+		st.heaps[h] = n
+		if ax := wfHeapAxiom(n, f.c.g.TE.heapSort[h], st.next); ax != "" && f.c.g.WFAxioms {
+			f.c.emit(ax)
+		}
 	}
 }
 
 func (f *frame) havocAll(st *State) {
+	f.havocNext(st)
 	f.c.ctr++
 	st.epoch = f.c.ctr
 	st.heaps = map[string]string{}
+	f.c.g.noteEpoch(st.epoch)
+	f.c.emit(fmt.Sprintf("(assert (= wfnext@%d %s))", st.epoch, st.next))
 }
 
 func (f *frame) havocNext(st *State) {
